@@ -3,10 +3,12 @@ import random
 import tracegen
 import framework as fw
 import loader_common as lc
+import translate
 
 ID = "C12"
 COQ_IMPORTS = lc.COQ_IMPORTS
 SOURCES = lc.SOURCES
+TRANSLATE = [translate.gen_trim_rules]
 N_CASES = {"quick": 300, "thorough": 5000}
 RULE = ("generated well-formed file sets, 1-3 ranks with DIFFERENT numbers of ProfilerStep annotations (0..5, with gaps, events before the first and after "
         "the last step, tiny time domains so that events start exactly at step boundaries), include_last_profiler_step drawn per case; compared: the iteration "
@@ -101,6 +103,7 @@ LEVEL_TEXT = ("Proof: C12_host_iteration / C12_host_no_step (half-open containme
               "C12_device_iteration (inherits the linked host call's, -1 if unlinked), C12_trim_exact (kept host rows = those starting before the last step "
               "starts / no later than its end; kept device rows = those whose id is carried by a kept host row; nothing else), C12_trim_noop_lt2, "
               "C12_trim_no_dup, C12_last_step_end. Correspondence on the iteration column, the kept id set and get_iterations()."
-              " C12_trim_no_dup now without any uniqueness hypothesis (no row is duplicated for any event mix); C12_resolution_independent: times multiplied by k > 0 change no iteration number and keep exactly the same rows.")
+              " C12_trim_no_dup now without any uniqueness hypothesis (no row is duplicated for any event mix); C12_resolution_independent: times multiplied by k > 0 change no iteration number and keep exactly the same rows."
+              " C12_trim_rules_follow_source: the trimming rule is regenerated from Trace._filter_irrelevant_gpu_kernels on every run (strict reading of the per-rank helper).")
 LEVEL_NOTE = ("Hand model of add_iteration (_get_profiler_step: last match wins) and _filter_irrelevant_gpu_kernels. Trusted: harness, pandas.")
 TECHNIQUE = "Coq proof over a Gallina model of iteration assignment and trimming + differential correspondence via vm_compute"
